@@ -2,7 +2,7 @@
 import json, os, subprocess, time, signal
 from concurrent.futures import ThreadPoolExecutor
 
-HARNESS = "/verif/harness"
+HARNESS = os.path.join(os.path.dirname(os.path.dirname(os.path.abspath(__file__))), "harness")
 DRIVER = os.path.join(HARNESS, "target/release/driver")
 
 
